@@ -113,6 +113,11 @@ pub struct GenCase {
     pub unsafe_mutations: bool,
     pub allow_ext: bool,
     pub allow_buffer: bool,
+    /// number of generation calls made on the same generator before the judged one (reuse
+    /// history; 0 = fresh generator). A reused generator must behave like a fresh one (C08), so
+    /// every output-based property is also judged on outputs of reused generators.
+    #[serde(default)]
+    pub prior_calls: u8,
 }
 
 impl GenCase {
@@ -127,6 +132,7 @@ impl GenCase {
             unsafe_mutations: false,
             allow_ext: false,
             allow_buffer: false,
+            prior_calls: 0,
         }
     }
 
@@ -158,7 +164,7 @@ impl GenCase {
             self.unsafe_mutations as u8,
             self.allow_ext as u8,
             self.allow_buffer as u8
-        )
+        ) + &if self.prior_calls > 0 { format!(" after {} earlier call(s)", self.prior_calls) } else { String::new() }
     }
 
     /// Build the real generator exactly the way the repository's own callers do
@@ -196,15 +202,40 @@ impl GenCase {
         call_gen(g, &self.entropy)
     }
 
-    /// fresh generator, one call
+    /// entropy of the earlier calls of a reuse history: same seed (generate() re-seeds per call),
+    /// or a different byte string derived from this case's bytes
+    fn prior_entropy(&self, i: u8) -> Entropy {
+        match &self.entropy {
+            Entropy::Seed(s) => Entropy::Seed(*s),
+            Entropy::Bytes(b) => {
+                let mut v = b.clone();
+                v.reverse();
+                v.push(i);
+                Entropy::Bytes(v)
+            }
+        }
+    }
+
+    fn warm(&self, g: &mut Generator, spy: Option<&SpyLog>) {
+        for i in 0..self.prior_calls {
+            let _ = call_gen(g, &self.prior_entropy(i));
+        }
+        if let Some(l) = spy {
+            l.lock().unwrap().clear();
+        }
+    }
+
+    /// fresh generator (plus `prior_calls` earlier calls), one judged call
     pub fn run(&self) -> Result<Vec<u8>, Failure> {
         let mut g = self.build(None);
+        self.warm(&mut g, None);
         self.call(&mut g)
     }
 
-    /// fresh generator, one call, with the trace hook armed
+    /// as `run`, with the trace hook armed for the judged call
     pub fn run_traced(&self, cfg: TraceCfg, spy: Option<&SpyLog>) -> (Result<Vec<u8>, Failure>, Trace) {
         let mut g = self.build(spy);
+        self.warm(&mut g, spy);
         verif::start(cfg);
         let r = self.call(&mut g);
         let t = verif::take();
@@ -367,6 +398,8 @@ pub enum SizeMode {
     WithHuge(usize, usize),
     /// tiny ranges only (enumeration-style coverage of the collapse tail)
     Tiny,
+    /// min in lo..hi, max = min + 1..600
+    Range(usize, usize),
 }
 
 #[derive(Clone, Copy, Debug, PartialEq, Eq)]
@@ -447,6 +480,7 @@ pub fn opcode_range(size: SizeMode) -> BoxedStrategy<(usize, usize)> {
         SizeMode::Mixed => prop_oneof![5 => tiny, 4 => default, 1 => medium].boxed(),
         SizeMode::WithLarge => prop_oneof![30 => tiny, 30 => default, 8 => medium, 1 => large].boxed(),
         SizeMode::Large => large.boxed(),
+        SizeMode::Range(lo, hi) => (lo..hi, 1usize..600).prop_map(|(a, d)| (a, a + d)).boxed(),
         SizeMode::WithHuge(..) => prop_oneof![600 => tiny, 600 => default, 120 => medium, 16 => large, 1 => huge].boxed(),
     }
 }
@@ -528,8 +562,9 @@ pub fn gencase(p: &Profile) -> BoxedStrategy<GenCase> {
         any::<bool>(),
         prop_oneof![2 => Just(false), 1 => Just(true)],
         prop_oneof![2 => Just(false), 1 => Just(true)],
+        prop_oneof![14 => Just(0u8), 4 => Just(1u8), 2 => Just(2u8)],
     )
-        .prop_map(move |(protocol, entropy, (min, max), mutators, rate, uns, ext, buf)| GenCase {
+        .prop_map(move |(protocol, entropy, (min, max), mutators, rate, uns, ext, buf, prior)| GenCase {
             protocol,
             entropy,
             min_opcodes: min,
@@ -543,6 +578,8 @@ pub fn gencase(p: &Profile) -> BoxedStrategy<GenCase> {
             },
             allow_ext: ext,
             allow_buffer: buf,
+            // long programs are not repeated (cost), everything else sometimes runs on a reused generator
+            prior_calls: if min.max(max) > 2000 { 0 } else { prior },
         })
         .boxed()
 }
@@ -603,5 +640,6 @@ pub fn gencase_from_bytes(data: &[u8], unsafe_mode: UnsafeMode) -> GenCase {
         },
         allow_ext: flags & 4 != 0,
         allow_buffer: flags & 8 != 0,
+        prior_calls: (flags >> 4) % 3,
     }
 }
